@@ -105,6 +105,11 @@ func checkFieldMap(c *an.Ctx, rule, fnKey, targetType string, want map[string]st
 				v = ct.X
 				continue
 			}
+			// a getter on the value itself (datasize.ByteSize.Bytes)
+			if call, ok := v.(*ssa.Call); ok && len(call.Call.Args) == 1 && !call.Call.IsInvoke() && call.Call.Signature().Recv() != nil {
+				v = call.Call.Args[0]
+				continue
+			}
 			break
 		}
 		if ap, ok := an.AccessPath(v); ok {
